@@ -57,7 +57,7 @@ def recover_points(binary, sess, points, tag="img"):
             crash.materialize(p.snap, root, d)
             dirs[key] = d
         order.append(key)
-    res = crash.recover_images(binary, list(dirs.values()), [k.hex() for k in sess["keys"]], NKEYS, decode=True)
+    res = crash.recover_images(binary, list(dirs.values()), [k.hex() for k in sess["keys"]], NKEYS, decode=True, cont=True)
     shutil.rmtree(imgroot, ignore_errors=True)
     return [res[dirs[k]] for k in order]
 
@@ -91,7 +91,7 @@ def judge_lines(case, mode, events, points, results, kind="crash", refs=None):
             m = list(r.get("m") or [])
             m = (m + ["?"] * NKEYS)[:NKEYS]
             lines.append({"t": "cp", "idx": p.idx, "desc": p.desc, "ok": bool(r.get("ok")), "err": (r.get("err") or "")[:300], "m": m,
-                          "kind": kind, "ref": refs or []})
+                          "kind": kind, "ref": refs or [], "cont": (r.get("cont") or "")[:300]})
     for i, e in enumerate(events):
         cps(i)
         t = e.get("t")
